@@ -97,8 +97,26 @@ def job_mpf(arg):
                     ok = r == 0 and bool(numpy.signbit(r)) == bool(sign)
                 elif Fraction(float(want)) == v:
                     ok = r.tobytes() == want.tobytes()  # a representable subnormal is preserved
+                elif half_sub < abs(v) < 2 * half_sub:
+                    ok = r.tobytes() == want.tobytes()  # above half the smallest subnormal: not a zero
                 if not ok:
                     rec("mpf2float[flush=%s]" % flush, man=str(man), exp=e, sign=sign, got=r, want=want)
+        # (3) subnormal results: one rounding, into the subnormal grid (values a hair below / above a tie of that grid, which
+        # rounding to p bits first would move onto the tie)
+        sub = Fraction(2) ** (emin - p + 1)
+        for k in list(range(0, 40)) + [(1 << (p - 2)) - 1, (1 << (p - 1)) - 2]:
+            for delta in (-1, 1):
+                for sign in (0, 1):
+                    man = (((k << 1) | 1) << (p + 8)) + delta
+                    e = (emin - p + 1) - 1 - (p + 8)
+                    v = Fraction(man) * Fraction(2) ** e
+                    v = -v if sign else v
+                    x = ctx.make_mpf(mpmath.libmp.from_man_exp(-man if sign else man, e))
+                    r = U.mpf2float(t, x, flush_subnormals=False)
+                    want = rn(t, v)
+                    n += 1
+                    if type(r) is not t or r.tobytes() != want.tobytes():
+                        rec("mpf2float-subnormal-result[flush=False]", man=str(man), exp=e, sign=sign, got=r, want=want, units="(%d + 1/2) %s 2^-%d smallest subnormals" % (k, "+" if delta > 0 else "-", p + 9))
     return tn, "mpf", n, fails
 
 
@@ -158,7 +176,7 @@ def protocol_cases():
     def rec(name, **kw):
         out.setdefault(name, []).append({k: (v if isinstance(v, (str, int, list)) else repr(v)) for k, v in kw.items()})
 
-    names = ["namespace-options-are-per-instance", "array-layout", "signed-zero-input", "correct-rounding[square,default-options]", "correct-rounding[square,extra_prec=1]", "correct-rounding[exp2-at-integers,default-options]"]
+    names = ["namespace-options-are-per-instance", "array-layout", "signed-zero-input", "correct-rounding[square,default-options]", "correct-rounding[square,extra_prec=1]", "correct-rounding[exp2-at-integers,default-options]", "correct-rounding[sqrt-of-largest,extra-precision]"]
     for nm in names:
         out[nm] = []
     with numpy.errstate(all="ignore"):
@@ -218,6 +236,15 @@ def protocol_cases():
                 want = numpy.ldexp(t(1), k)
                 if r.tobytes() != want.tobytes():
                     rec("correct-rounding[exp2-at-integers,default-options]", t=tn, x=k, got=r, want=want)
+            # the value is first rounded to prec + extra bits and then to prec bits: sqrt(largest) sits a hair below a midpoint
+            big = t(fi.max)
+            for kw in (dict(extra_prec=1), dict(extra_prec=10), dict(extra_prec_multiplier=1)):
+                r = numpy.asarray(U.numpy_with_mpmath(flush_subnormals=False, **kw).sqrt(big)).astype(t)[()]
+                lo, hi = numpy.nextafter(r, t(0)), numpy.nextafter(r, t(numpy.inf))
+                F = lambda v: Fraction(float(v))
+                nearest = ((F(r) + F(lo)) / 2) ** 2 < F(big) < ((F(r) + F(hi)) / 2) ** 2
+                if not nearest:
+                    rec("correct-rounding[sqrt-of-largest,extra-precision]", t=tn, options=repr(kw), got=r, neighbours=[repr(lo), repr(hi)])
     return out
 
 
@@ -244,7 +271,7 @@ def run(rep, tier, prop="C15"):
                 seen[(tn, what)] = seen.get((tn, what), 0) + n
                 for name, lst in fails.items():
                     agg.setdefault((tn, name), []).extend(lst)
-    names = [("mpf", "_normalize-contract"), ("mpf", "mpf2float[flush=False]"), ("mpf", "mpf2float[flush=True]")]
+    names = [("mpf", "_normalize-contract"), ("mpf", "mpf2float[flush=False]"), ("mpf", "mpf2float[flush=True]"), ("mpf", "mpf2float-subnormal-result[flush=False]")]
     names += [("backend", "backend[%s,flush=%s]" % (f, fl)) for f in ("identity", "negate", "double") for fl in ("unspecified", False, True)]
     for tn in TYPES:
         for what, name in names:
